@@ -5,7 +5,10 @@ precision than the commodity displays, so that rounding is exercised) compared b
 with the extracted model (Model/AmountText.v: reader, pool learning, printer; Base/Round.v: MPFR
 rounding model).  Oracle (from the property text, Fractions): number of decimals = the largest
 number of decimals written for the commodity, |shown - exact| <= half a unit in the last place,
-one consistent style per commodity, and the printed text re-read by ledger is the same quantity."""
+one consistent style per commodity, and the printed text re-read by ledger is the same quantity.
+A second stream runs journals written with decimal commas throughout under --decimal-comma (Model/DecimalComma.v, whose
+reader/printer conditions are regenerated from amount.cc into Gen/DecimalComma.v): same comparison, same oracle, and the
+re-read - with the option - must be exact for every number of decimals (3, 6, 9, 12 included: the class F21 is about)."""
 import re
 from fractions import Fraction as F
 import lib
@@ -14,11 +17,11 @@ META = dict(
     id='C04',
     level='proof',
     technique='Coq proof (half-ulp bound of the two-stage MPFR rounding model, exact half-even roundto, pool learning is max/or and order-free, digit-text round trip) + differential correspondence of reader/printer against ledger',
-    level_text='Theorems in coq/Properties/Properties_C04.v: for every rational n/d and display precision p (hypothesis 10^p <= 2^(bits d + 767), true of every p <= 230) the integer ledger prints at p decimals is within half a unit of n/d*10^p (never a truncation); in_place_roundto is exact round-half-even; the display precision rule; what the pool learns is the max of the decimals and the or of the style flags of the amounts seen, independent of their order; the quantity reader recovers the integer and the precision from every plain decimal text the printer emits. The model (reader, learning, printer incl. grouping, decimal comma, quoting, zero trimming) is tied to the code by byte-for-byte comparison of thousands of printed amounts and their exact rationals, and the invalid_chars table and extend_by_digits are regenerated from the source on every run.',
+    level_text='Theorems in coq/Properties/Properties_C04.v: for every rational n/d and display precision p (hypothesis 10^p <= 2^(bits d + 767), true of every p <= 230) the integer ledger prints at p decimals is within half a unit of n/d*10^p (never a truncation); in_place_roundto is exact round-half-even; the display precision rule; what the pool learns is the max of the decimals and the or of the style flags of the amounts seen, independent of their order; the quantity reader recovers the integer and the precision from every plain decimal text the printer emits. The model (reader, learning, printer incl. grouping, decimal comma, quoting, zero trimming) is tied to the code by byte-for-byte comparison of thousands of printed amounts and their exact rationals, and the invalid_chars table and extend_by_digits are regenerated from the source on every run. --decimal-comma: the three places where the option enters the reader and the printer are transcribed from amount.cc on every run (Gen/DecimalComma.v); with them, reader and printer decide alike in every session, every accepted amount teaches the style, and a decimal-comma text (thousands periods or not, ANY number of decimals) is read back as exactly the number printed once the style is known - by the option or by the commodity (reread_in_the_same_session); journals written with decimal commas are run with the option and compared byte for byte.',
     level_note='Trusted: Coq kernel; the MPFR model (mpfr_div at bits(n)+bits(d)+768 bits RNDN then %.*RNf half-even) is modelled, validated by the correspondence on ties; extraction/driver/python harness for the correspondence. The print->parse round trip is proved for plain decimal texts (digits and point); thousands marks, decimal comma, quoted symbols and symbol placement are covered by the correspondence and the re-read oracle only (stated as partial). Lot annotations are not modelled here.',
     design_ref='DESIGN.md section 7 C04, sections 6.3-6.4',
     assumptions=['commodity symbols avoid s/m/h (predefined time units)',
-                 'no commodity format directives in the generated journals',
+                 '--decimal-comma is exercised without --percent (report.cc switches the default off again there) and without --time-colon',
                  'no backslash in commodity symbols (the stream reader takes it as an escape, the in-memory one does not)'],
 )
 
